@@ -475,6 +475,10 @@ def check_fetch(run, repo):
 def main(repo_path, tier, seed, replay=None):
     run = Run('C13', tier, level='other', seed=seed)
     repo = Repo(repo_path)
+    import re
+    from .. import memo
+    memo.check(run, repo, 'C13-MEMO', lambda rel, q: re.search(r'(^|\.)(mem_[au]|big_endian|fetch_)', q) is not None,
+               'the MemA / MemU accessors and BigEndianReverse')
     for is_set in (False, True):
         check_mem_a(run, repo, is_set)
         check_mem_u(run, repo, is_set)
